@@ -63,6 +63,9 @@ func (e *Engine) GroundObligations(prop, tier string) ([]*Obligation, []string) 
 		g.actionTable()
 	case "C01", "C02":
 		g.jumpTests()
+	case "C05", "C08":
+		g.jumpTests()
+		g.bpfOpcodes()
 	case "C13":
 		g.globalsImmutable()
 	}
@@ -313,6 +316,69 @@ func (g *groundCtx) inj32() {
 			byWord[w] = en.Name
 		}
 		g.add(fn, fn+"#ground.inj32", fmt.Sprintf("distinct syscall names compile to distinct 32-bit words uint32(number | %#x) (%d entries; infoInj)", mask, len(ents)), bad == "" && len(ents) > 0, bad, pos)
+	}
+}
+
+var bpfDefine = regexp.MustCompile(`(?m)^#define\s+(BPF_[A-Z0-9]+)\s+(0x[0-9a-fA-F]+|\d+)`)
+
+// bpfOpcodes: the opcode constants of x/net/bpf (the dependency whose encoder is under contract) equal the macros of the
+// kernel's linux/bpf_common.h (vendored), and the seven composed opcodes the spec library's kernel semantics
+// (spec/70_kernel.smt2: runSF, rawJumpOp, rawLoadOp) is written with are the ones the header yields.
+func (g *groundCtx) bpfOpcodes() {
+	data, err := os.ReadFile(filepath.Join(g.e.VerifDir, "oracle", "bpf_common.h"))
+	if err != nil {
+		g.add("oracle.bpf_common", "oracle.bpf_common#ground.present", "vendored linux/bpf_common.h present", false, err.Error(), token.NoPos)
+		return
+	}
+	h := map[string]int64{}
+	for _, m := range bpfDefine.FindAllStringSubmatch(string(data), -1) {
+		v, err := strconv.ParseInt(m[2], 0, 64)
+		if err == nil {
+			h[m[1]] = v
+		}
+	}
+	g.add("oracle.bpf_common", "oracle.bpf_common#ground.parsed", "opcode macros parsed from linux/bpf_common.h", len(h) >= 30, fmt.Sprintf("%d macros", len(h)), token.NoPos)
+	bp := g.e.PkgByName["bpf"]
+	if bp == nil {
+		g.add("bpf.constants", "bpf.constants#ground.load", "package golang.org/x/net/bpf loaded with syntax", false, "not loaded", token.NoPos)
+		return
+	}
+	pairs := [][2]string{{"opClsLoadA", "BPF_LD"}, {"opClsJump", "BPF_JMP"}, {"opClsReturn", "BPF_RET"}, {"opAddrModeAbsolute", "BPF_ABS"},
+		{"opLoadWidth4", "BPF_W"}, {"opLoadWidth2", "BPF_H"}, {"opLoadWidth1", "BPF_B"}, {"opOperandConstant", "BPF_K"}, {"opRetSrcConstant", "BPF_K"},
+		{"opJumpAlways", "BPF_JA"}, {"opJumpEqual", "BPF_JEQ"}, {"opJumpGT", "BPF_JGT"}, {"opJumpGE", "BPF_JGE"}, {"opJumpSet", "BPF_JSET"}}
+	for _, pr := range pairs {
+		c, ok := bp.Types.Scope().Lookup(pr[0]).(*types.Const)
+		fn := "bpf." + pr[0]
+		if !ok {
+			g.add(fn, fn+"#ground.value", pr[0]+" is a constant of x/net/bpf", false, "not found", token.NoPos)
+			continue
+		}
+		v, _ := constant.Int64Val(c.Val())
+		hv, have := h[pr[1]]
+		g.add(fn, fn+"#ground.value", fmt.Sprintf("x/net/bpf %s == %s of linux/bpf_common.h (%#x)", pr[0], pr[1], hv), have && v == hv, fmt.Sprintf("x/net %#x, kernel %#x (found %v)", v, hv, have), c.Pos())
+	}
+	spec := []struct {
+		name string
+		val  int64
+		of   []string
+	}{{"ld [k] (word, absolute)", 32, []string{"BPF_LD", "BPF_W", "BPF_ABS"}}, {"ldh [k]", 40, []string{"BPF_LD", "BPF_H", "BPF_ABS"}}, {"ldb [k]", 48, []string{"BPF_LD", "BPF_B", "BPF_ABS"}},
+		{"ja", 5, []string{"BPF_JMP", "BPF_JA"}}, {"ret k", 6, []string{"BPF_RET", "BPF_K"}},
+		{"jeq k", 21, []string{"BPF_JMP", "BPF_JEQ", "BPF_K"}}, {"jgt k", 37, []string{"BPF_JMP", "BPF_JGT", "BPF_K"}},
+		{"jge k", 53, []string{"BPF_JMP", "BPF_JGE", "BPF_K"}}, {"jset k", 69, []string{"BPF_JMP", "BPF_JSET", "BPF_K"}}}
+	for _, sp := range spec {
+		var v int64
+		ok := true
+		for _, m := range sp.of {
+			hv, have := h[m]
+			ok = ok && have
+			v |= hv
+		}
+		g.add("spec.70_kernel", "spec.70_kernel#ground.opcode."+strings.ReplaceAll(sp.name, " ", "_"), fmt.Sprintf("opcode of '%s' in spec/70_kernel.smt2 (%d) == %s", sp.name, sp.val, strings.Join(sp.of, "|")), ok && v == sp.val, fmt.Sprintf("header gives %d", v), token.NoPos)
+	}
+	// the spec text really uses these numbers (a guard against editing one side only)
+	txt, _ := os.ReadFile(filepath.Join(g.e.VerifDir, "spec", "70_kernel.smt2"))
+	for _, lit := range []string{"(= code 6)", "(= code 32)", "(= code 5)", "(= code 21)", "(= code 37)", "(= code 53)", "(= code 69)", "(ite (= size 4) 32 (ite (= size 2) 40 48))"} {
+		g.add("spec.70_kernel", "spec.70_kernel#ground.text."+mangle(lit), "spec/70_kernel.smt2 contains "+lit, strings.Contains(string(txt), lit), "missing", token.NoPos)
 	}
 }
 
